@@ -898,6 +898,14 @@ def check_transform(ctx, stream, cases):
         except Exception as ex:  # noqa: BLE001
             stream.count('code-error:' + errname(ex))
             continue
+        # exact regime: the library drops coefficients below EQ_TOLERANCE = 1e-8 in `+=`; a product of L
+        # projectors over decoder monomials of degree D has coefficients down to about 2^-(L (D + 1) + 3),
+        # so deep products over high-degree decoders would (legitimately) lose terms.  Such cases are not judged.
+        deg = max([len(t) for d in list(code.decoder) if hasattr(d, 'terms') for t in d.terms] + [1])
+        maxlen = max([len(t) for t in f] + [0])
+        if maxlen * (deg + 1) + 3 > 24:
+            stream.count('skipped:outside-exact-regime')
+            continue
         H = of.FermionOperator()
         for t, c in f.items():
             H += of.FermionOperator(t, c)
